@@ -189,9 +189,11 @@ class World:
         self.KeyFile = KeyFile
         from mc import core
         # the directory lives under the (private) home directory: odd-numbered objects name the same file home-relative
-        self.dir = os.path.join(core.home_dir(), "kd")
-        self.path = os.path.join(self.dir, "app.key")
-        self.names = [self.path if i % 2 == 0 else "~/kd/app.key" for i in range(nobj)]
+        # ... and its name and the file's name contain `$NAME` / `${NAME}` with NAME set: the name is used verbatim
+        os.environ["C07VAR"] = "expanded"
+        self.dir = os.path.join(core.home_dir(), "kd$C07VAR")
+        self.path = os.path.join(self.dir, "app${C07VAR}.key")
+        self.names = [self.path if i % 2 == 0 else "~/kd$C07VAR/app${C07VAR}.key" for i in range(nobj)]
         if not aes:
             import pathlib
             self.names[0] = pathlib.Path(self.path)        # a path object instead of a string (the one-object jobs)
